@@ -81,12 +81,13 @@ class SubPickle(labtech.cache.PickleCache):
 
 
 SFoo = _mk('SFoo', __name__, cache=SubPickle())
+DFoo = _mk('DFoo', __name__, fields=('p', 'q'), extra={'q': 100})     # a parameter whose default is not None
 
 # module-level types whose names are legal non-ASCII identifiers (every key of such a type must be usable)
 Modèle = _mk('Modèle', __name__, fields=('p', 'q'))
 Эксперимент = _mk('Эксперимент', __name__, fields=('p', 'q'))
 
-ALL = (Foo, FooBar, Foo_, Leaf, NoCacheT, JFoo, PFoo, P2, Modèle, Эксперимент, SFoo)
+ALL = (Foo, FooBar, Foo_, Leaf, NoCacheT, JFoo, PFoo, P2, Modèle, Эксперимент, SFoo, DFoo)
 
 
 def _shape_payload(kind: str, n: int):
